@@ -12,6 +12,10 @@ Proved here (all inputs, all tables):
 * `rejection_located_at_a_token`: every rejection raised while tokens are processed is reported
   at the start of the token being processed (or one byte before it when the lexer was rewound in
   that very step) with that token's byte length;
+* `reported_span_is_the_offending_token`: for a whole parse, a rejection raised while tokens are processed
+  reports an offset and a length that delimit, in the input bytes, exactly the text of the token the parser
+  was processing (`text[p : p+len]` is that token; `p + len ≤ |text|`), `p` possibly one byte early after a
+  lexer rewind;
 * `rejection_independent_of_what_follows`: once the token loop has stopped on a prefix of the
   token stream, no continuation changes the outcome (prefix determinism).
 
@@ -35,6 +39,22 @@ theorem rejection_independent_of_what_follows (T : Table) (pre rest : List Tok) 
     (o : Machine.Outcome) (h : Machine.feed T pre s n = .stop o) :
     Machine.feed T (pre ++ rest) s n = .stop o :=
   Machine.feed_prefix_stop T pre rest s n o h
+
+/-- the reported span of a token-loop rejection is the offending token, as it stands in the input -/
+theorem reported_span_is_the_offending_token (T : Table) (text : Bytes) (prev : PState) (lr : Lex.Result)
+    (hl : Lex.lex text = some lr) (p n : Nat) (e : PErr)
+    (hs : Machine.feed T lr.toks {} 0 = .stop (.reject p n e)) :
+    ∃ tok ∈ lr.toks, (p = tok.pos ∨ p = tok.pos - 1) ∧ n = tok.text.length ∧
+      (text.drop tok.pos).take n = tok.text ∧ tok.pos + n ≤ text.length := by
+  rcases Machine.feed_stop_located T lr.toks {} 0 _ hs with h | ⟨w, h⟩ | ⟨tok, hmem, e', h | h⟩
+  · simp at h
+  · simp at h
+  · injection h with h1 h2 h3
+    obtain ⟨s1, s2⟩ := Lex.lex_slices text lr hl tok hmem
+    exact ⟨tok, hmem, Or.inl h1, h2, by rw [h2]; exact s1, by rw [h2]; exact s2⟩
+  · injection h with h1 h2 h3
+    obtain ⟨s1, s2⟩ := Lex.lex_slices text lr hl tok hmem
+    exact ⟨tok, hmem, Or.inr h1, h2, by rw [h2]; exact s1, by rw [h2]; exact s2⟩
 
 /-- non-vacuity: offset 7 of "ab\ncd\nefg" is line 3, column 2 -/
 example : (Lex.lineno (sb "ab\ncd\nefg") 7, Lex.colno (sb "ab\ncd\nefg") 7) = (3, 2) := by decide
